@@ -595,6 +595,34 @@ Definition holds_b (c : case) (ob : observed) : bool :=
   && clause_left_out c ob && clause_exactly c ob && clause_generous c ob
   && clause_callback ob && clause_expired c ob && clause_delegate c ob.
 
+(* ------------------------------------------------------------------------------------- *)
+(* apply_evaluation_results called directly (it is a public static method) with the results  *)
+(* in ANY order, with invalid / None / missing / foreign results mixed in                     *)
+(* ------------------------------------------------------------------------------------- *)
+(* specification: an individual is returned iff some valid result carries its uid, and then with
+   the fitness and graph of that result; input order of the individuals is preserved *)
+Definition apply_spec (inds : list ind) (rs : list (option eres)) : list ind :=
+  flat_map (fun i => match dict_get (uid i) (truthy_pairs rs) with
+                     | Some r => [ {| uid := uid i; fitness := r_fit r; gr := r_graph r |} ]
+                     | None => []
+                     end) inds.
+
+(* the quantifier: individuals without valid fitness and with pairwise distinct uids, at most one
+   valid result per uid *)
+Definition apply_in_scope (inds : list ind) (rs : list (option eres)) : bool :=
+  nodup_b (map uid inds) && forallb (fun i => negb (valid (fitness i))) inds
+  && nodup_b (map fst (truthy_pairs rs)).
+
+Definition apply_agree (inds : list ind) (rs : list (option eres)) (raised : bool) (out : list ind) : bool :=
+  match apply_evaluation_results inds rs with
+  | Ok l => negb raised && list_eqb ind_eqb l out
+  | RaiseValueError => raised
+  end.
+
+Definition apply_holds_b (inds : list ind) (rs : list (option eres)) (raised : bool) (out : list ind) : bool :=
+  if negb (apply_in_scope inds rs) then true
+  else negb raised && list_eqb ind_eqb out (apply_spec inds rs).
+
 (* which individual received which fitness, compared between two runs on one scenario *)
 Definition same_assignment_b (out1 out2 : list ind) : bool :=
   forallb (fun x => existsb (fun y => Nat.eqb (uid x) (uid y) && fit_eqb (fitness x) (fitness y)) out2) out1
